@@ -236,7 +236,11 @@ pub fn child_listop(c: &J) -> String {
                         let e = parse(&t);
                         let same = d == e;
                         std::mem::forget(e);
-                        same as usize
+                        if !same {
+                            std::mem::forget(d);
+                            return "err == returned false for two parses of the same text".into();
+                        }
+                        1
                     }
                     "datum-list_iter" => {
                         let mut it = d.list_iter().expect("list_iter");
@@ -299,7 +303,11 @@ pub fn child_listop(c: &J) -> String {
                 let w = build(route, n, dotted);
                 let same = v == w;
                 std::mem::forget(w);
-                same as usize
+                if !same {
+                    std::mem::forget(v);
+                    return "err == returned false for equal lists".into();
+                }
+                1
             }
             "ne-everywhere" | "ne-alternate" | "ne-first" | "ne-last" | "ne-tail" | "ne-length" => {
                 let w = build_other(op.strip_prefix("ne-").unwrap(), n, dotted);
@@ -426,6 +434,29 @@ fn judge(acc: &mut Acc, rank: u64, c: &J, obs: &ChildObs) {
         ChildObs::Returned(s) if s.starts_with("ok") => {
             if c["n"].as_u64().unwrap_or(0) > 1000 {
                 acc.nontrivial += 1;
+            }
+            // the operation's answer, where it is a function of n (C15's oracle at large n)
+            let n = c["n"].as_u64().unwrap_or(0);
+            let dotted = c["shape"].as_str() == Some("dotted");
+            let expect: Option<u64> = match op {
+                "build-only" | "clone" | "parse-str-value" | "parse-slice-value" | "parse-reader-value" | "parse-reader-datum" | "parse-str-datum" | "datum-clone" | "datum-into-value" | "serde-to_value" | "serde-from_value"
+                | "serde-from_str" | "cons.to_vec" | "cons.to_ref_vec" | "cons.into_vec" | "iter-count" | "into_iter-exhaust" => Some(n),
+                "value.to_vec" | "value.to_ref_vec" => Some(n),
+                // list_iter-exhaust continues past the first None and counts the tail of a dotted list;
+                // the datum loop stops at the first None
+                "list_iter-exhaust" => Some(if dotted { n + 1 } else { n }),
+                "datum-list_iter" => Some(n),
+                "iter-half" | "list_iter-half" | "into_iter-half" => Some(n / 2),
+                "get-last" | "index-last" | "eq" | "datum-eq" => Some(1),
+                "get-usize-max" | "alist-miss-str" | "alist-miss-value" => Some(0),
+                "is_list" => Some(!dotted as u64),
+                "is_dotted_list" => Some(dotted as u64),
+                _ => None,
+            };
+            if let (Some(want), Some(got)) = (expect, s.strip_prefix("ok ").and_then(|x| x.parse::<u64>().ok())) {
+                if want != got {
+                    acc.violation("operations", "wrong-answer", &format!("wrong-answer:{}", op), rank, w, format!("the operation answered {}, expected {}", got, want), || c.clone());
+                }
             }
         }
         ChildObs::Returned(s) => acc.violation("operations", "operation-failed", &format!("operation-failed:{}", op), rank, w, s.clone(), || c.clone()),
